@@ -1,6 +1,7 @@
 (* C09 -- The generated C++ (boost::sml) encodes exactly the table and is self-consistent. *)
 From Coq Require Import String List Bool Arith.
-From KV Require Import Lib.TableDef Model.TTable Gen.SmlTmpl Model.SmlTT Proofs.TTableProofs Proofs.SmlProofs.
+From KV Require Import Lib.TableDef Model.TTable Gen.SmlTmpl Model.SmlTT Model.DeclShape Gen.DeclTmpl Model.Decls
+                       Proofs.TTableProofs Proofs.SmlProofs Proofs.DeclProofs.
 Import ListNotations.
 Open Scope string_scope.
 
@@ -26,25 +27,34 @@ Theorem C09_hooks_only_states : forall t, forallb row_ok t = true -> forall i s,
 Proof. exact sml_hooks_only_states. Qed.
 Print Assumptions C09_hooks_only_states.
 
-(* FULL STATEMENT of the self-consistency clause: every state, event, guard and action the generated units reference
-   is declared exactly once in the generated controller and state-machine interfaces with matching event parameters,
-   so that the translation units type-check together.
-   PROVED (partial): at the level of the element lists that the per-element template blocks iterate over -- every
-   state / event / guard / action / (action, event) signature a row refers to is a member of the corresponding list,
-   and each list is duplicate free, so each per-element declaration is emitted exactly once.
-   MISSING: a Coq model of the four templates' per-element blocks and of C++ name lookup / overload resolution; that
-   each list element becomes exactly one declaration in each file, with the event's parameter list, is observed on the
-   real files by the check (declaration regexes, counts) and by `g++ -fsyntax-only` against an interface-only stub of
-   boost/sml.hpp, not proved. *)
-Theorem C09_self_consistent_partial : forall t, forallb row_ok t = true ->
-  (forall r, In r t ->
-     In (r_src r) (states t) /\ In (r_ev r) (events t) /\
-     (forall n, opt (r_next r) = Some n -> In n (states t)) /\
-     (forall g, opt (r_guard r) = Some g -> In g (guards t)) /\
-     (forall a, opt (r_act r) = Some a -> In a (actions t) /\ In (a, r_ev r) (actionsignatures t))) /\
-  NoDup (states t) /\ NoDup (events t) /\ NoDup (guards t) /\ NoDup (actions t) /\ NoDup (actionsignatures t).
-Proof. intros t H. split; [exact (sml_refs_declared t H)|exact (sml_decl_lists_nodup t)]. Qed.
-Print Assumptions C09_self_consistent_partial.
+(* Self-consistency, at the level of (declaration kind, name, parameter list) triples.  [decls_file f t i] is what file f
+   declares: for every declaration line that translator/decltmpl.py finds inside a per-element block of f's template
+   (Gen/DeclTmpl.v, regenerated on every run) one declaration per element of the list that block iterates over -- states,
+   events (the table's, then the interface's other event structs), actions, (action, event) signatures, guards --
+   with the event's parameter list as the event interface declares it.  [refs_cpp t i] is what the rows make the units
+   refer to and where it must be declared:
+     every start / next state : struct S; (impl), S_on_entry / S_on_exit (controller, and the test unit's overrides),
+       the SOnEntry / SOnExit functors and their instances (impl), Is<S>() in the interface and its override in the impl;
+     every event : struct E with its members and E_ptr (controller), Trigger<E>(parameters of E) in the interface AND,
+       with the same parameter list, its override in the impl, E::Dispatch (impl);
+     every guard : G() and m_G (controller), the functor G and its instance (impl), the override (test unit);
+     every action : the functor A and its instance (impl); and for the (action, event) pair of the row
+       A(E const&) in the controller and its override in the test unit.
+   Each of these is declared EXACTLY ONCE in the file that must declare it, for every table (any number of rows sharing
+   states, events, guards, actions, signatures) and every event interface.
+   What stays observed, not proved: that g++ accepts the units (name lookup, overload resolution, the member types
+   themselves) -- `g++ -std=c++17 -fsyntax-only` against the interface-only boost::sml stub in the check -- and that the
+   per-kind regexes of the check read the same declarations out of the real files as decls_file predicts. *)
+Theorem C09_self_consistent : forall t i, forallb row_ok t = true ->
+  forall f d, In (f, d) (refs_cpp t i) -> dcount (decls_file f t i) d = 1.
+Proof. exact cpp_self_consistent. Qed.
+Print Assumptions C09_self_consistent.
+
+(* ... and a file declares nothing but elements of the table model / event interface. *)
+Theorem C09_declares_only_elements : forall f t i k n p, In (k, n, p) (decls_file f t i) ->
+  exists b, In (b, k) (shape_of f) /\ In (n, p) (elements t i b).
+Proof. exact decls_only_elements. Qed.
+Print Assumptions C09_declares_only_elements.
 
 Definition ex_table : table :=
   [mkRow "SA" "BEv" "SA" "OnA" "GuardG"; mkRow "SA" "Ev" "" "OnAB" "None"; mkRow "SA" "EvZ" "SC" "none" "NONE";
@@ -66,6 +76,18 @@ Example C09_entry_exit_nonvacuous :
      IEntry "SC" "sCOnEntry"; IExit "SC" "sCOnExit"].
 Proof. vm_compute. split; reflexivity. Qed.
 Print Assumptions C09_entry_exit_nonvacuous.
+
+Definition ex_iface : iface := [("Ev", ["uint8_t m0"; "double m1"]); ("Extra0", ["bool p0"])].
+
+Example C09_self_consistent_nonvacuous :
+  In (FCtl, (KCtlAction, "OnAB", ["Ev"])) (refs_cpp ex_table ex_iface) /\
+  In (FImpl, (KImplTrigger, "Ev", ["uint8_t m0"; "double m1"])) (refs_cpp ex_table ex_iface) /\
+  dcount (decls_file FCtl ex_table ex_iface) (KCtlAction, "OnAB", ["Ev"]) = 1 /\
+  dcount (decls_file FCtl ex_table ex_iface) (KCtlAction, "OnA", ["Ev"]) = 1 /\
+  dcount (decls_file FCtl ex_table ex_iface) (KCtlAction, "OnA", ["EvZ"]) = 0 /\
+  dcount (decls_file FIfc ex_table ex_iface) (KIfcTrigger, "Extra0", ["bool p0"]) = 1.
+Proof. vm_compute. repeat split; try reflexivity; repeat (first [left; reflexivity | right]). Qed.
+Print Assumptions C09_self_consistent_nonvacuous.
 
 (* The key that was used before the fix: commit (string concatenation action+event): (OnA,BEv) and (OnAB,Ev) collide and
    the signature OnAB(Ev) is never declared. *)
